@@ -225,7 +225,7 @@ macro_rules! async_pairs {
     };
 }
 
-pub fn run(_a: &Args, out: &mut impl Write) {
+pub fn run(a_: &Args, out: &mut impl Write) {
     silence_panics();
     let fam = family();
     // ---- rustc's rendering of every family type
@@ -386,5 +386,43 @@ pub fn run(_a: &Args, out: &mut impl Write) {
             inj.when_called_unchecked(shadow::func_unchecked!(tg::f01)).will_return_boolean(true);
         });
         writeln!(out, "boolgate - | {} restored=1", classify(&r)).unwrap();
+    }
+    // ---- the gate on every token string up to a length: the signature text is whatever the
+    // caller's FuncPtr carries, so the helper must be right on arbitrary text, not only on types
+    {
+        let alphabet: [(char, &str); 8] =
+            [('f', "fn"), ('(', "("), (')', ")"), ('>', " -> "), ('b', "bool"), ('u', "u8"), (',', ", "), ('&', "&")];
+        let maxlen = if a_.tier_thorough { 6 } else { 5 };
+        let ta = (bool_family()[0].target_addr)();
+        let mut idx = vec![0usize; 0];
+        loop {
+            // next string in length-lexicographic order
+            let mut k = idx.len();
+            loop {
+                if k == 0 {
+                    idx = vec![0; idx.len() + 1];
+                    break;
+                }
+                k -= 1;
+                if idx[k] + 1 < alphabet.len() {
+                    idx[k] += 1;
+                    for j in k + 1..idx.len() {
+                        idx[j] = 0;
+                    }
+                    break;
+                }
+            }
+            if idx.len() > maxlen {
+                break;
+            }
+            let code: String = idx.iter().map(|&i| alphabet[i].0).collect();
+            let text: String = idx.iter().map(|&i| alphabet[i].1).collect();
+            let leaked: &'static str = Box::leak(text.into_boxed_str());
+            let r = quiet_catch(std::panic::AssertUnwindSafe(move || unsafe {
+                let mut inj = InjectorPP::new();
+                inj.when_called(FuncPtr::new(ta as *const (), leaked)).will_return_boolean(true);
+            }));
+            writeln!(out, "boolstr {} | {}", code, classify(&r)).unwrap();
+        }
     }
 }
